@@ -88,3 +88,75 @@ fn c31_produces_follows_the_validity_rule() {
     println!("C31 checked {checked} (tx, flag) cases, {with_cr} transactions with a collateral return");
     assert!(checked > 100 && with_cr > 0, "fixtures must exercise the rule ({checked}, {with_cr})");
 }
+
+/// consumes(): every output reference exactly once, whatever the order of duplicates ([A, B, A]).
+#[test]
+fn c31_consumes_each_input_once() {
+    use pallas_traverse::Era;
+    use std::collections::HashSet;
+    let mut cases = 0;
+    for name in ["alonzo1.tx", "alonzo2.tx", "babbage1.tx", "babbage2.tx"] {
+        let Ok(s) = std::fs::read_to_string(format!("/repo/test_data/{name}")) else { continue };
+        let Ok(bytes) = hex::decode(s.trim()) else { continue };
+        let Ok(tx) = MultiEraTx::decode(&bytes) else { println!("{name}: does not decode"); continue };
+        for ok in [true, false] {
+            // rebuild the transaction with inputs / collateral = [A, B, A]
+            let t: Option<MultiEraTx> = match &tx {
+                MultiEraTx::AlonzoCompatible(x, e) => {
+                    let mut t = (***x).clone();
+                    let a = t.transaction_body.inputs.first().cloned();
+                    let Some(a) = a else { continue };
+                    let mut b = a.clone();
+                    b.index += 1;
+                    let dup = vec![a.clone(), b, a];
+                    {
+                        let body = std::ops::DerefMut::deref_mut(&mut t.transaction_body);
+                        body.inputs = dup.clone();
+                        body.collateral = Some(dup);
+                    }
+                    t.success = ok;
+                    Some(MultiEraTx::AlonzoCompatible(Box::new(Cow::Owned(t)), *e))
+                }
+                MultiEraTx::Babbage(x) => {
+                    let mut t = (***x).clone();
+                    let a = t.transaction_body.inputs.first().cloned();
+                    let Some(a) = a else { continue };
+                    let mut b = a.clone();
+                    b.index += 1;
+                    let dup = vec![a.clone(), b, a];
+                    {
+                        let body = std::ops::DerefMut::deref_mut(&mut t.transaction_body);
+                        body.inputs = dup.clone();
+                        body.collateral = Some(dup);
+                    }
+                    t.success = ok;
+                    Some(MultiEraTx::Babbage(Box::new(Cow::Owned(t))))
+                }
+                MultiEraTx::Conway(x) => {
+                    let mut t = (***x).clone();
+                    let a = t.transaction_body.inputs.iter().next().cloned();
+                    let Some(a) = a else { continue };
+                    let mut b = a.clone();
+                    b.index += 1;
+                    let dup = vec![a.clone(), b, a];
+                    {
+                        let body = std::ops::DerefMut::deref_mut(&mut t.transaction_body);
+                        body.inputs = pallas_codec::utils::Set::from(dup.clone());
+                        body.collateral = pallas_codec::utils::NonEmptySet::from_vec(dup);
+                    }
+                    t.success = ok;
+                    Some(MultiEraTx::Conway(Box::new(Cow::Owned(t))))
+                }
+                _ => None,
+            };
+            let Some(t) = t else { println!("{name}: era not handled"); continue };
+            let got: Vec<_> = t.consumes().iter().map(|i| i.output_ref()).collect();
+            let uniq: HashSet<_> = got.iter().cloned().collect();
+            assert_eq!(got.len(), uniq.len(), "{name} valid={ok}: an input is consumed more than once");
+            assert_eq!(uniq.len(), 2, "{name} valid={ok}: every distinct input is consumed");
+            cases += 1;
+        }
+    }
+    let _ = Era::Alonzo;
+    assert!(cases >= 2, "fixtures must exercise consumes() ({cases})");
+}
